@@ -106,7 +106,7 @@ package core
 //@ spec witSize(w *transaction.Witness) int = io.varsize(len(w.InvocationScript)) + len(w.InvocationScript) + io.varsize(len(w.VerificationScript)) + len(w.VerificationScript)
 //@ func (*Block).GetExpectedBlockSizeWithoutTransactions
 //@ pure
-//@ requires b != nil && 0 <= txCount && txCount <= 0xffffffff && len(b.Script.InvocationScript) <= 0xffffffff && len(b.Script.VerificationScript) <= 0xffffffff
+//@ requires b != nil && 0 <= txCount
 //@ call GetVarSize ensures[witness] is(arg0, *transaction.Witness) ==> result == witSize(arg0.(*transaction.Witness))
 //@ call GetVarSize ensures[count] is(arg0, int) ==> result == io.varsize(arg0.(int))
 //@ ensures[size] result == 110 + witSize(&b.Script) + io.varsize(txCount) + ite(b.StateRootEnabled, 32, 0)
